@@ -124,7 +124,21 @@ func init() {
 		return Val{K: 2, L: out}
 	})
 	register("pmt.read", func(a []Val) Val {
-		return resPMT(psi.ReadPMT(bytes.NewReader(a[0].B), a[1].Int()))
+		rd := bytes.NewReader(a[0].B)
+		p, err := psi.ReadPMT(rd, a[1].Int())
+		if err == nil {
+			// the reader is the caller's: it goes on reading the stream after the table.  ReadPMT may consume whole packets up to
+			// the one that completes the table and nothing more (seeded C06-u1: a private read-ahead buffer swallowed the
+			// packets behind the PMT).  Checked without the model: the consumed length is a multiple of 188, and the stream cut
+			// one packet earlier no longer yields a PMT.
+			consumed := len(a[0].B) - rd.Len()
+			if consumed%188 != 0 || consumed < 188 {
+				noteUnstable("ReadPMT consumed %d bytes of the caller's reader: not a whole number of packets", consumed)
+			} else if _, err2 := psi.ReadPMT(bytes.NewReader(a[0].B[:consumed-188]), a[1].Int()); err2 == nil {
+				noteUnstable("ReadPMT consumed %d bytes of the caller's reader although the table is complete %d bytes earlier: it reads ahead of the PMT, a caller that goes on reading the stream loses packets", consumed, 188)
+			}
+		}
+		return resPMT(p, err)
 	})
 	register("pmt.crc", func(a []Val) Val {
 		in := append([]byte{}, a[0].B...)
@@ -246,6 +260,28 @@ func init() {
 		q := []Val{}
 		for _, v := range a[2].L {
 			q = append(q, VBool(p.PIDExists(v.Int())))
+		}
+		// the same removal with an argument that is a PART OF THE PMT'S OWN Pids() (pm.RemoveElementaryStreams(pm.Pids()[i:j])):
+		// when the request is a contiguous run of the PID list, a second PMT decoded from the same bytes is handed that very
+		// sub-slice; the result must be the same (seeded C14-u2: the PID list was edited in place while it was ranged over)
+		if p2, err2 := psi.NewPMT(append([]byte{}, a[0].B...)); err2 == nil && len(rm) > 0 {
+			own := p2.Pids()
+			for i := 0; i+len(rm) <= len(own); i++ {
+				match := true
+				for j := range rm {
+					if own[i+j] != rm[j] {
+						match = false
+						break
+					}
+				}
+				if match {
+					p2.RemoveElementaryStreams(own[i : i+len(rm)])
+					if !valEq(vpmt(p), vpmt(p2)) {
+						noteUnstable("RemoveElementaryStreams gives a different PMT when its argument is a part of the PMT's own Pids(): %s vs %s", valText(vpmt(p)), valText(vpmt(p2)))
+					}
+					break
+				}
+			}
 		}
 		return VOk(VL(vpmt(p), Val{K: 2, L: q}))
 	})
